@@ -4,6 +4,7 @@ import InjModel.Generated.Consts
 import Driver.Util
 import Driver.Arm
 import Driver.Hist
+import Driver.Gen
 namespace Driver
 open Inj Inj.Alloc
 
@@ -18,7 +19,17 @@ def handleAlloc (args obs : List String) : Verdict :=
       let (mres, mevs) := search src range 4096 size answers
       let mresS := match mres with
         | AResult.ok a => hex a | AResult.panic => "panic" | AResult.stuck => "stuck"
-      let agree := mresS == res && mevs.map allocEvCanon == evs.map Ev.canon
+      -- the allocator as translated from the source on this run, on the same kernel answers
+      -- (skipped for the 65537-probe exhaustion scripts: the translated loop is not tail recursive)
+      let genDiff : Option String :=
+        if answers.length > 4000 then none else
+        let (gres, gevs) := Gen.alloc src size answers
+        let gcanon := gevs.map fun (k, a, b) =>
+          if k == "M" then "M" ++ hex a ++ ":" ++ hex size ++ ":" ++ (if b == 18446744073709551615 then "X" else hex b)
+          else "U" ++ hex a ++ ":" ++ hex b
+        if gres == res && gcanon == evs.map Ev.canon then none
+        else some ("translated=" ++ gres ++ ":" ++ toString gevs.length ++ "ev")
+      let agree := mresS == res && mevs.map allocEvCanon == evs.map Ev.canon && genDiff.isNone
       -- property predicates on the implementation's observations
       let accepted := parseHex res
       -- within reach of both entry encodings: x86-64 rel32 and the AArch64 B (±128 MiB, word offsets)
@@ -45,7 +56,8 @@ def handleAlloc (args obs : List String) : Verdict :=
       { agree := agree, propOk := keys.isEmpty,
         branch := "alloc-" ++ tag ++ (if res == "panic" then "+exhausted" else "") ++ (if unmaps.isEmpty then "" else "+rejects") ++
                   (if src < range then "+clipped" else "") ++ (if answers.any (·.isNone) then "+mapfail" else ""),
-        detail := (if agree then "" else "model=" ++ mresS ++ ":" ++ toString mevs.length ++ "ev") ++ String.join (keys.map (" key=" ++ ·)) }
+        detail := (if agree then "" else "model=" ++ mresS ++ ":" ++ toString mevs.length ++ "ev") ++
+                  (match genDiff with | some w => " why=translated-function-differs:" ++ w | none => "") ++ String.join (keys.map (" key=" ++ ·)) }
     | _, _, _, _ => bad "fields"
   | _ => bad "arity"
 
